@@ -134,9 +134,7 @@ where
       x.1.call(());
     });
     self.unscribers.write().unwrap().clear();
-    if self.subscriber.is_subscribed() {
-      self.subscriber.unsubscribe();
-    }
+    self.subscriber.unsubscribe();
     let on_finalize = &mut *self.on_finalize.write().unwrap();
     if let Some(f) = on_finalize {
       f.call(());
